@@ -65,7 +65,7 @@ class BaseMDOFormulation(BaseFormulation):
         constraint = FunctionFromDiscipline(output_names, self)
         if constraint.discipline_adapter.is_linear:
             constraint = compute_linear_approximation(
-                constraint, zeros(constraint.discipline_adapter.input_dimension)
+                constraint, zeros(self.optimization_problem.design_space.dimension)
             )
         constraint.f_type = constraint_type
         if constraint_name:
